@@ -60,3 +60,68 @@ let () =
               | _ -> "na") in
           gd ^ "create=ok flat=" ^ flats ^ " fails=" ^ fails ^ " doc=" ^ docs ^ " sem=" ^ sems))
     | _ -> "!args")
+
+(* T2(d) per program: (t2derived PROGRAM REAL) with REAL = flat record | none | (err ExcName)
+   -> "outside"  (not a single CrossBlock of simple / within-trial derived factors over simple factors)
+    | "guard=.. create=ok|ERR|ValueError flat=same|diff:FIELDS|na fails=same|diff|na doc=ok|unsupported|crash sem=same|diff:PARTS|na"
+   sem: as for t2plain, but the factor tables are compared per level as *sets* of the accepted entries
+        without a None cell (the flat record lists them in cross-product order, doc_sem sorted by repr,
+        and the documented else level also accepts "no value yet", which a within-trial window never reads): relation
+        [sem_eqv_t] of Design/SemEqvT.v. *)
+let norm_factor (f : Sem.dfactor) =
+  (f.Sem.f_nlevels, f.Sem.f_sustain,
+   (match f.Sem.f_derived with
+    | None -> None
+    | Some w -> Some (w.Sem.w_deps, w.Sem.w_width, w.Sem.w_stride, w.Sem.w_start,
+                      Stdlib.List.map (fun t -> Stdlib.List.sort_uniq compare
+                                                    (Stdlib.List.filter (fun e -> Stdlib.List.for_all (fun col -> Stdlib.List.for_all (fun c -> c <> None) col) e) t))
+                        w.Sem.w_table)))
+let sem_diff_t (a : Sem.sem) (b : Sem.sem) : string list =
+  let d = sem_diff { a with Sem.s_factors = [] } { b with Sem.s_factors = [] } in
+  if Stdlib.List.map norm_factor a.Sem.s_factors <> Stdlib.List.map norm_factor b.Sem.s_factors
+  then "factors" :: d else d
+let derived_guard : (DocSem.program -> bool) ref = ref DerivedGuard.t2d_guard
+let () =
+  register "t2derived" (function [ps; real] ->
+    let p = Drv_docsem.program_of_sexp ps in
+    (match DerivedInput.derived_input p with
+     | None -> "outside"
+     | Some ci ->
+       let doc = DocSem.doc_sem p in
+       let gd = "guard=" ^ show_bool (!derived_guard p) ^ " " in
+       let docs = (match doc with DocSem.Ok _ -> "ok" | DocSem.Unsup _ -> "unsupported" | DocSem.Crash _ -> "crash") in
+       let created = CreateFlat.create_flat ci in
+       let against exc = (match real with A "none" -> "na" | L [A "err"; A e] -> if e = exc then "same" else "diff:raises_" ^ e
+                                        | _ -> "diff:raises") in
+       (* the order of the constructor: weight desugaring (not modelled), generate_derivations (ValueError: a
+          tuple matches two levels), then the crossing weights (ZeroDivisionError: empty crossing) *)
+       (match created with
+        | CreateFlat.FErr CreateFlat.FUnsupported -> gd ^ "create=FUnsupported flat=na fails=na doc=" ^ docs ^ " sem=na"
+        | _ when DerivedInput.derived_raises p ->
+          gd ^ "create=ValueError flat=" ^ against "ValueError" ^ " fails=na doc=" ^ docs ^ " sem=na"
+        | CreateFlat.FErr CreateFlat.FArith ->
+          gd ^ "create=FArith flat=" ^ against "ZeroDivisionError" ^ " fails=na doc=" ^ docs ^ " sem=na"
+        | CreateFlat.FErr e -> gd ^ "create=" ^ show_ferr e ^ " flat=na fails=na doc=" ^ docs ^ " sem=na"
+        | CreateFlat.FOk fb ->
+          let flats, fails = (match real with
+              | A "none" -> "na", "na"
+              | L [A "err"; A e] -> "diff:real_" ^ e, "na"
+              | r -> let rf = Wire_flat.flat_of_sexp r in
+                (match flat_diff fb rf with [] -> "same" | l -> "diff:" ^ Stdlib.String.concat "," l),
+                (if fb.Flat.fl_errors_fail = rf.Flat.fl_errors_fail then "same" else "diff")) in
+          let sems = (match doc with
+              | DocSem.Ok ds -> (match sem_diff_t (CodeSem.code_sem fb) ds.DocSem.ds_sem with
+                  | [] -> "same" | l -> "diff:" ^ Stdlib.String.concat "," l)
+              | _ -> "na") in
+          gd ^ "create=ok flat=" ^ flats ^ " fails=" ^ fails ^ " doc=" ^ docs ^ " sem=" ^ sems))
+    | _ -> "!args")
+
+(* diagnostics: (t2dshow PROGRAM) -> code_sem of the created flat record | doc_sem *)
+let () =
+  register "t2dshow" (function [ps] ->
+    let p = Drv_docsem.program_of_sexp ps in
+    (match DerivedInput.t2d_code_sem p, DocSem.doc_sem p with
+     | Some cs, DocSem.Ok ds -> Drv_docsem.show_sem cs ^ " | " ^ Drv_docsem.show_sem ds.DocSem.ds_sem
+                                ^ " | forder " ^ Drv_docsem.show_natl ds.DocSem.ds_forder
+     | _, _ -> "na")
+    | _ -> "!args")
